@@ -639,9 +639,9 @@ pub fn property() -> Property {
         subs: vec![
             Box::new(PropSub {
                 name: "C18/bitenc",
-                quick: 160_000,
+                quick: 480_000,
                 thorough: 4_000_000,
-                shards_quick: 8,
+                shards_quick: 16,
                 shards_thorough: 16,
                 strat: bitenc::strat,
                 check: bitenc::check,
@@ -659,9 +659,9 @@ pub fn property() -> Property {
             Box::new(ExhSub { name: "C18/bitenc-fill-sweep", enumerate: bitenc::enumerate, check: bitenc::check, must_reach: &["push_values: crosses a block boundary"] }),
             Box::new(PropSub {
                 name: "C18/smallints",
-                quick: 120_000,
+                quick: 360_000,
                 thorough: 3_000_000,
-                shards_quick: 4,
+                shards_quick: 16,
                 shards_thorough: 16,
                 strat: smallints::strat,
                 check: smallints::check,
@@ -674,9 +674,9 @@ pub fn property() -> Property {
             }),
             Box::new(PropSub {
                 name: "C18/fenwick",
-                quick: 120_000,
+                quick: 360_000,
                 thorough: 3_000_000,
-                shards_quick: 4,
+                shards_quick: 16,
                 shards_thorough: 16,
                 strat: fenwick::strat,
                 check: fenwick::check,
